@@ -44,3 +44,29 @@ Definition stream_sees (v : reader_variant) (add_root : bool) (members : list ev
   | [] => None
   | evs => regroup (2 * length evs + 2) evs
   end.
+
+(* ---------- Tar(): the check after the root entry (commit 4e00255) ----------
+     if _, err := tar(ctx, enc, buf, nil); err != nil { return err }
+     switch f, err := buf.Next(); err { case io.EOF: return nil; case nil: return <error naming f> ..}
+   LeftoverIgnored is Tar() before that commit: `_, err := tar(..); return err`. *)
+Inductive leftover_variant := LeftoverRefused | LeftoverIgnored.
+Inductive tar_outcome := TarOk (t : node) | TarError.
+
+Definition tar_outcome_of (v : leftover_variant) (r : option (node * list event)) : tar_outcome :=
+  match r with
+  | None => TarError
+  | Some (t, []) => TarOk t
+  | Some (t, _ :: _) => match v with LeftoverRefused => TarError | LeftoverIgnored => TarOk t end
+  end.
+
+(* Tar() over a TarReader *)
+Definition stream_tar (lv : leftover_variant) (add_root : bool) (members : list event) : tar_outcome :=
+  tar_outcome_of lv (stream_sees ReaderFixed add_root members).
+
+(* the nodes of a tree in archive order, each without its children *)
+Fixpoint heads (t : node) : list node :=
+  head_of t :: match t with
+               | NDir _ _ cs => flat_map (fun nc : bytes * node => heads (snd nc)) cs
+               | _ => []
+               end.
+Definition event_heads (evs : list event) : list node := map (fun e : event => head_of (snd e)) evs.
